@@ -530,6 +530,36 @@ func runC21(c *Ctx) {
 				ops = []string{fmt.Sprintf("saveblock %d %d %d %s %s", b, g.height[b], c.Rng.Intn(3), sl(), g.txs[b])}
 			case r < 24:
 				ops = []string{fmt.Sprintf("savehdr %d %d %d %s", b, g.height[b], c.Rng.Intn(3), sl())}
+			case r < 32 && c.Rng.Intn(2) == 0:
+				// a reorganisation: the main-chain index of several heights is rewritten by ONE
+				// SaveChainStatus call (ascending heights, one block each), with the index read
+				// (hence cached) before and read again afterwards
+				var toks []string
+				for hh := 1; hh <= nh; hh++ {
+					var at []int
+					for bb := 1; bb <= nb; bb++ {
+						if g.height[bb] == hh {
+							at = append(at, bb)
+						}
+					}
+					if len(at) > 0 && (len(toks) == 0 || c.Rng.Intn(4) > 0) {
+						toks = append(toks, fmt.Sprintf("%d:%d", at[c.Rng.Intn(len(at))], hh))
+					}
+				}
+				if len(toks) == 0 {
+					break
+				}
+				for hh := 1; hh <= nh; hh++ {
+					if c.Rng.Intn(3) > 0 {
+						ops = append(ops, fmt.Sprintf("main %d", hh))
+					}
+				}
+				ops = append(ops, "status "+strings.Join(toks, " "))
+				for hh := 1; hh <= nh; hh++ {
+					if c.Rng.Intn(4) > 0 {
+						ops = append(ops, fmt.Sprintf("main %d", hh))
+					}
+				}
 			case r < 32:
 				var toks []string
 				for n := 1 + c.Rng.Intn(3); n > 0; n-- {
